@@ -311,6 +311,19 @@ def expected_resp_accept(text):
         return None
     if not (isinstance(pairs, tuple) and pairs[0] == "obj"):
         return False
+
+    def has_lone_surrogate(v):
+        if isinstance(v, str):
+            return any(0xD800 <= ord(ch) <= 0xDFFF for ch in v)
+        if isinstance(v, tuple) and v and v[0] == "obj":
+            return any(has_lone_surrogate(k) or has_lone_surrogate(x) for k, x in v[1])
+        if isinstance(v, (list, tuple)):
+            return any(has_lone_surrogate(x) for x in v)
+        return False
+    if has_lone_surrogate(pairs):
+        # Python's json keeps an unpaired \uD800..\uDFFF escape, serde_json rejects it wherever the string is really parsed and
+        # lets it pass where the value is only skipped: outside this oracle's domain (the model/implementation diff judges it)
+        return None
     ms = pairs[1]
     cnt = lambda k: sum(1 for kk, _ in ms if kk == k)
     get = lambda k: next(v for kk, v in ms if kk == k)
